@@ -1,0 +1,69 @@
+use std::ptr;
+
+/// An iterator over consecutive elements which are moved out of their storage.
+///
+/// The iterator owns the `len` elements starting at `ptr`, and only these elements; it neither owns
+/// nor releases the allocation that the elements live in:
+///
+/// * each element is yielded, i.e., moved out, at most once;
+/// * elements which are not yielded are dropped in place when the iterator is dropped.
+pub(crate) struct TakenSlice<T> {
+    ptr: *mut T,
+    len: usize,
+}
+
+impl<T> TakenSlice<T> {
+    /// Creates the iterator owning the `len` elements starting at `ptr`.
+    ///
+    /// # Safety
+    ///
+    /// * `ptr` must point to `len` consecutive, properly initialized elements of type `T`,
+    ///   which remain allocated at least as long as the iterator lives;
+    /// * nothing else may read, move or drop these elements after this call.
+    pub(crate) unsafe fn new(ptr: *mut T, len: usize) -> Self {
+        Self { ptr, len }
+    }
+}
+
+impl<T> Iterator for TakenSlice<T> {
+    type Item = T;
+
+    #[inline]
+    fn next(&mut self) -> Option<Self::Item> {
+        match self.len {
+            0 => None,
+            _ => {
+                // SAFETY: the element is initialized and owned by the iterator; it is not touched again
+                // since the iterator is advanced right after it is read
+                let value = unsafe { self.ptr.read() };
+                self.ptr = unsafe { self.ptr.add(1) };
+                self.len -= 1;
+                Some(value)
+            }
+        }
+    }
+
+    #[inline]
+    fn size_hint(&self) -> (usize, Option<usize>) {
+        (self.len, Some(self.len))
+    }
+}
+
+impl<T> ExactSizeIterator for TakenSlice<T> {
+    #[inline]
+    fn len(&self) -> usize {
+        self.len
+    }
+}
+
+impl<T> Drop for TakenSlice<T> {
+    fn drop(&mut self) {
+        // SAFETY: the remaining elements are initialized, owned by the iterator and not yielded
+        unsafe { ptr::drop_in_place(ptr::slice_from_raw_parts_mut(self.ptr, self.len)) }
+    }
+}
+
+// SAFETY: the iterator owns its elements, just as `std::vec::IntoIter<T>` does
+unsafe impl<T: Send> Send for TakenSlice<T> {}
+
+unsafe impl<T: Sync> Sync for TakenSlice<T> {}
